@@ -88,6 +88,14 @@ pub fn valid_alphabet() -> Vec<Letter> {
     v.push(Letter::new("garbage", b"hello world".to_vec(), false));
     v.push(Letter::new("empty", b"".to_vec(), true));
     v.push(Letter::new("truncated", b"!AIVDM,2,1".to_vec(), false));
+    // 200-character fragments (validly numbered): two of them exceed the no-allocator buffer
+    for k in 1..=3u32 {
+        let mut big = vec![b'0'; 200];
+        big[0] = b'0' + k as u8;
+        v.push(Letter::new(&format!("BIG(3,{},5)", k), sentence(3, k, b"5", &big, 0), false));
+    }
+    let big = vec![b'7'; 200];
+    v.push(Letter::new("BIG(2,2,5)", sentence(2, 2, b"5", &big, 0), false));
     v
 }
 
@@ -116,14 +124,6 @@ pub fn ext_alphabet() -> Vec<Letter> {
             ));
         }
     }
-    // 200-character fragments: two fit the no-allocator buffer (400 > 384 does not)
-    for k in 1..=3u32 {
-        let mut big = vec![b'0'; 200];
-        big[0] = b'0' + k as u8;
-        v.push(Letter::new(&format!("BIG(3,{},5)", k), sentence(3, k, b"5", &big, 0), false));
-    }
-    let big = vec![b'7'; 200];
-    v.push(Letter::new("BIG(2,2,5)", sentence(2, 2, b"5", &big, 0), false));
     v.push(Letter::new("BIG385", sentence(1, 1, b"", &vec![b'1'; 385], 0), false));
     // fragments whose payload is not armoring
     v.push(Letter::new("F~(2,1,-)+d", sentence(2, 1, b"", b"~~", 0), true));
@@ -190,7 +190,7 @@ pub fn run_with_monitor(l: &mut Local, prop: &'static str, lines: &[(Vec<u8>, bo
         let (exp, m1) = asm::step(&m, line, *decode, subj::NOALLOC);
         let (ea, ma) = asm::step(&m_alloc, line, *decode, false);
         let (en, mn) = asm::step(&m_noalloc, line, *decode, true);
-        let capacity_zone = ea != en || ma != mn || m_noalloc == MState::Poisoned;
+        let capacity_zone = ea != en || ma != mn;
         m_alloc = ma;
         m_noalloc = mn;
         let out = p.parse(line, *decode);
